@@ -32,6 +32,16 @@ class Tick:
         yield self
 
 
+class AwaitableObject:
+    """An awaitable that is not a coroutine object (the way asyncio.Future / Task or a user class with __await__ is)."""
+
+    def __init__(self, coro: Any) -> None:
+        self.coro = coro
+
+    def __await__(self):
+        return self.coro.__await__()
+
+
 class Truthy:
     def __init__(self, tag: str, value: bool) -> None:
         self.tag = tag
@@ -232,6 +242,10 @@ class Hub:
     async def acond(self, id_: str, got: Dict[str, Any]) -> Any:
         await Tick("cond:" + id_)
         return self.cond(id_, got)
+
+    def awaitable_cond(self, id_: str, got: Dict[str, Any]) -> Any:
+        """The verdict of the condition wrapped into an awaitable object which is not a coroutine."""
+        return AwaitableObject(self.acond(id_, got))
 
     async def acapture(self, id_: str, got: Dict[str, Any]) -> Any:
         await Tick("snap:" + id_)
